@@ -1329,6 +1329,64 @@ theorem mem_extLinksOf (orig q : List Ent) (hn : noBlockDataIn orig = true) (t m
     · exact mem_extLinks orig q hn t m e h
     · exact mem_extLinksOf orig q hn t m es h
 
+/-! ### name links of `bound_declaration` -/
+
+theorem bindLinked_page (orig q : List Ent) (b : Bool) (d : Nat) (h : bindLinked true orig q b d = true) :
+    d ∈ pageIds q ∧ d ∈ visibleIdsOf q := by
+  simp only [bindLinked, bindNameLink, Bool.and_eq_true, Bool.true_and, Bool.not_true, Bool.false_or, if_true,
+    List.contains_iff_mem] at h
+  exact ⟨h.2, h.1.2⟩
+
+theorem mem_bindLinksIn (orig q : List Ent) (t t' b d : Nat) :
+    (es : Ents) → (t', b, d) ∈ es.bindLinksIn true orig q t → d ∈ pageIds q ∧ d ∈ visibleIdsOf q
+  | .nil => by simp [Ents.bindLinksIn]
+  | .cons e rest => by
+    intro h
+    simp only [Ents.bindLinksIn, List.mem_append] at h
+    rcases h with h | h
+    · split at h
+      · split at h
+        · rename_i d' _
+          by_cases hl : bindLinked true orig q e.info.visible d' = true
+          · simp only [hl, if_true, List.mem_singleton, Prod.mk.injEq] at h
+            rw [h.2.2]; exact bindLinked_page orig q _ d' hl
+          · simp [hl] at h
+        · simp at h
+      · simp at h
+    · exact mem_bindLinksIn orig q t t' b d rest h
+
+mutual
+theorem mem_bindLinks (orig q : List Ent) (t b d : Nat) :
+    (e : Ent) → (t, b, d) ∈ e.bindLinks true orig q → d ∈ pageIds q ∧ d ∈ visibleIdsOf q
+  | .mk i cs => by
+    intro h
+    simp only [Ent.bindLinks, List.mem_append] at h
+    rcases h with h | h
+    · split at h
+      · exact mem_bindLinksIn orig q i.id t b d cs h
+      · simp at h
+    · exact mems_bindLinks orig q t b d cs h
+theorem mems_bindLinks (orig q : List Ent) (t b d : Nat) :
+    (es : Ents) → (t, b, d) ∈ es.bindLinks true orig q → d ∈ pageIds q ∧ d ∈ visibleIdsOf q
+  | .nil => by simp [Ents.bindLinks]
+  | .cons e rest => by
+    intro h
+    simp only [Ents.bindLinks, List.mem_append] at h
+    rcases h with h | h
+    · exact mem_bindLinks orig q t b d e h
+    · exact mems_bindLinks orig q t b d rest h
+end
+
+theorem mem_bindLinksOf (orig q : List Ent) (t b d : Nat) :
+    (es : List Ent) → (t, b, d) ∈ bindLinksOf true orig q es → d ∈ pageIds q ∧ d ∈ visibleIdsOf q
+  | [] => by simp [bindLinksOf]
+  | e :: es => by
+    intro h
+    simp only [bindLinksOf, List.mem_append] at h
+    rcases h with h | h
+    · exact mem_bindLinks orig q t b d e h
+    · exact mem_bindLinksOf orig q t b d es h
+
 mutual
 theorem mem_visibleIds_ids (x : Nat) : (e : Ent) → x ∈ e.visibleIds → x ∈ e.ids
   | .mk i cs => by
